@@ -1,6 +1,496 @@
-//! C07 — not implemented yet.
+//! C07 — Admin / ownership changes hands only through a live two-step handshake.
+//!
+//! Targets: example `ownable` (transfer_ownership / accept_ownership / renounce_ownership /
+//! `#[only_owner] increment`) and the harness `Acl` contract (transfer_admin_role /
+//! accept_admin_transfer / renounce_admin / `#[only_admin] p_admin`).
+//! Env: `min_temp_entry_ttl = 1` (storage lifetime == requested lifetime), `max_entry_ttl`
+//! small (500) in a third of the cases so that "beyond the maximum TTL" is reachable.
+//! Oracle: model {holder, pending: Option<(account, live_until)>}; an offer is live iff
+//! `live_until >= ledger`.  Explicit authorization entries on every call.
+
+use super::c06::{exec, Call};
+use super::ftcore::{auth_strategy, AuthMode};
 use crate::engine::*;
+use crate::envx::{self, call_t};
+use crate::gen::pick;
+use proptest::prelude::*;
+use serde::{Deserialize, Serialize};
+use soroban_sdk::{symbol_short, Address, Env, IntoVal};
+
+pub const NA: usize = 5;
+const SMALL_TTL: u32 = 500;
+
+#[derive(Clone, Copy, Debug, Serialize, Deserialize, PartialEq, Eq)]
+pub enum Target {
+    Ownable,
+    Acl,
+}
+
+/// live_until_ledger selector of an offer
+#[derive(Clone, Debug, Serialize, Deserialize)]
+pub enum Live {
+    /// current ledger + d
+    Rel(i32),
+    /// max_live_until_ledger + d
+    MaxPlus(i8),
+    /// the live_until of an earlier offer + d (re-offer with the same / a neighbouring expiry)
+    LikeEarlier(u16, i8),
+    /// 0 = cancel
+    Cancel,
+    Abs(u32),
+}
+
+/// account selector
+#[derive(Clone, Debug, Serialize, Deserialize)]
+pub enum Sel {
+    Holder,
+    /// the account of the model's pending offer (live or not); the last offeree when none
+    Pending,
+    /// the account named by an earlier successful offer
+    Earlier(u16),
+    Acct(u16),
+}
+
+#[derive(Clone, Debug, Serialize, Deserialize)]
+pub enum Which {
+    Current,
+    Earlier(u16),
+}
+
+#[derive(Clone, Debug, Serialize, Deserialize)]
+pub enum Op {
+    Offer { to: Sel, live: Live, by: Sel, auth: AuthMode },
+    /// `also`: a second account that attaches an entry for exactly this invocation
+    Accept { by: Sel, also: Option<Sel>, auth: AuthMode },
+    Renounce { by: Sel, auth: AuthMode },
+    Probe { by: Sel, auth: AuthMode },
+    Advance { k: u32 },
+    /// jump to (live_until of the current / an earlier offer) + d
+    AdvanceTo { which: Which, d: i8 },
+    /// AdvanceTo followed by Accept (keeps the interesting pair together)
+    AcceptAt { which: Which, d: i8, by: Sel, also: Option<Sel>, auth: AuthMode },
+}
+
+#[derive(Clone, Debug, Serialize, Deserialize)]
+pub struct Case {
+    pub target: Target,
+    pub seq: u32,
+    pub small_ttl: bool,
+    pub ops: Vec<Op>,
+}
+
+fn op_strategy() -> BoxedStrategy<Op> {
+    let a = auth_strategy(12);
+    let live = prop_oneof![
+        1 => Just(Live::Rel(-1)),
+        2 => Just(Live::Rel(0)),
+        2 => Just(Live::Rel(1)),
+        7 => (2i32..60).prop_map(Live::Rel),
+        2 => (100i32..498).prop_map(Live::Rel),
+        2 => (-1i8..=1).prop_map(Live::MaxPlus),
+        2 => (any::<u16>(), -1i8..=1).prop_map(|(w, d)| Live::LikeEarlier(w, d)),
+        3 => Just(Live::Cancel),
+        1 => prop_oneof![Just(1u32), Just(u32::MAX), 2u32..99].prop_map(Live::Abs),
+    ];
+    let to = prop_oneof![
+        8 => any::<u16>().prop_map(Sel::Acct),
+        3 => Just(Sel::Pending),
+        2 => any::<u16>().prop_map(Sel::Earlier),
+        1 => Just(Sel::Holder),
+    ];
+    let by_holder = prop_oneof![14 => Just(Sel::Holder), 1 => Just(Sel::Pending), 1 => any::<u16>().prop_map(Sel::Earlier), 2 => any::<u16>().prop_map(Sel::Acct)];
+    let by_accept = prop_oneof![9 => Just(Sel::Pending), 3 => any::<u16>().prop_map(Sel::Earlier), 1 => Just(Sel::Holder), 1 => any::<u16>().prop_map(Sel::Acct)];
+    let also = proptest::option::weighted(0.1, prop_oneof![2 => Just(Sel::Holder), 1 => any::<u16>().prop_map(Sel::Earlier), 1 => any::<u16>().prop_map(Sel::Acct)]);
+    let by_probe = prop_oneof![5 => Just(Sel::Holder), 2 => Just(Sel::Pending), 1 => any::<u16>().prop_map(Sel::Earlier), 2 => any::<u16>().prop_map(Sel::Acct)];
+    prop_oneof![
+        10 => (to, live, by_holder.clone(), auth_strategy(20)).prop_map(|(to, live, by, auth)| Op::Offer { to, live, by, auth }),
+        5 => (by_accept.clone(), also.clone(), a.clone()).prop_map(|(by, also, auth)| Op::Accept { by, also, auth }),
+        6 => (prop_oneof![4 => Just(Which::Current), 1 => any::<u16>().prop_map(Which::Earlier)], -1i8..=1, by_accept, also, a.clone())
+            .prop_map(|(which, d, by, also, auth)| Op::AcceptAt { which, d, by, also, auth }),
+        1 => (by_holder, a.clone()).prop_map(|(by, auth)| Op::Renounce { by, auth }),
+        3 => (by_probe, a.clone()).prop_map(|(by, auth)| Op::Probe { by, auth }),
+        2 => prop_oneof![Just(0u32), Just(1), 2u32..70].prop_map(|k| Op::Advance { k }),
+        5 => (prop_oneof![3 => Just(Which::Current), 2 => any::<u16>().prop_map(Which::Earlier)], -1i8..=1).prop_map(|(which, d)| Op::AdvanceTo { which, d }),
+    ]
+    .boxed()
+}
+
+fn strategy_for(target: Target, tier: Tier) -> BoxedStrategy<Case> {
+    let max_ops = tier.pick(25usize, 50usize);
+    (100u32..5000, proptest::bool::weighted(0.35), proptest::collection::vec(op_strategy(), 0..=max_ops))
+        .prop_map(move |(seq, small_ttl, ops)| Case { target, seq, small_ttl, ops })
+        .boxed()
+}
+
+#[derive(Clone, Copy, Debug, PartialEq, Eq)]
+enum Gone {
+    Never,
+    Cancelled,
+    Accepted,
+    Renounced,
+}
+
+#[derive(Clone, Copy, Debug)]
+struct Pending {
+    addr: usize,
+    until: u32,
+    /// this offer replaced a live offer that had a different live_until
+    replaced_diff: bool,
+}
+
+struct Model {
+    holder: Option<usize>,
+    last_holder: usize,
+    pending: Option<Pending>,
+    gone: Gone,
+    /// every successful offer (account, live_until), oldest first
+    offers: Vec<(usize, u32)>,
+    counter: u32,
+}
+
+struct World {
+    e: Env,
+    c: Address,
+    target: Target,
+    accts: Vec<Address>,
+}
+
+impl World {
+    fn f(&self, generic: &'static str) -> &'static str {
+        match (self.target, generic) {
+            (Target::Ownable, "offer") => "transfer_ownership",
+            (Target::Ownable, "accept") => "accept_ownership",
+            (Target::Ownable, "renounce") => "renounce_ownership",
+            (Target::Ownable, "probe") => "increment",
+            (Target::Ownable, "holder") => "get_owner",
+            (Target::Acl, "offer") => "transfer_admin_role",
+            (Target::Acl, "accept") => "accept_admin_transfer",
+            (Target::Acl, "renounce") => "renounce_admin",
+            (Target::Acl, "probe") => "p_admin",
+            (Target::Acl, "holder") => "get_admin",
+            (_, x) => x,
+        }
+    }
+    /// (holder through the public getter, number of privileged effects)
+    fn observe(&self) -> Result<(Option<Address>, u32), Violation> {
+        let h = call_t::<Option<Address>>(&self.e, &self.c, self.f("holder"), args![&self.e]).map_err(|x| violation("C07/holder/getter-failed", x))?;
+        let e = &self.e;
+        let cnt = e.as_contract(&self.c, || match self.target {
+            Target::Ownable => {
+                use crate::examples::ownable::contract::DataKey;
+                e.storage().instance().get::<_, i32>(&DataKey::Counter).unwrap_or(-1) as u32
+            }
+            Target::Acl => e.storage().instance().get::<_, u32>(&symbol_short!("CNT")).unwrap_or(0),
+        });
+        Ok((h, cnt))
+    }
+}
+
+fn resolve(m: &Model, s: &Sel) -> usize {
+    match s {
+        Sel::Holder => m.holder.unwrap_or(m.last_holder),
+        Sel::Pending => m.pending.map(|p| p.addr).or(m.offers.last().map(|o| o.0)).unwrap_or(1),
+        Sel::Earlier(w) => {
+            if m.offers.is_empty() {
+                pick(*w, NA)
+            } else {
+                m.offers[pick(*w, m.offers.len())].0
+            }
+        }
+        Sel::Acct(w) => pick(*w, NA),
+    }
+}
+
+pub fn run(case: &Case, ctx: &mut Ctx) -> R {
+    let max_ttl = if case.small_ttl { SMALL_TTL } else { envx::BIG_TTL };
+    let e = envx::new_env(case.seq, max_ttl);
+    let accts = envx::actors(&e, NA);
+    let c = match case.target {
+        Target::Ownable => e.register(crate::examples::ownable::contract::ExampleContract, (accts[0].clone(),)),
+        Target::Acl => e.register(crate::contracts::c06::acl::Acl, (accts[0].clone(),)),
+    };
+    envx::no_auth(&e);
+    let w = World { e, c, target: case.target, accts };
+    let e = &w.e;
+    let mut m = Model { holder: Some(0), last_holder: 0, pending: None, gone: Gone::Never, offers: vec![], counter: 0 };
+    let mut accept_after_replaced_expiry = false;
+
+    let check_obs = |m: &Model, what: &str| -> R {
+        let (h, cnt) = w.observe()?;
+        let want = m.holder.map(|i| w.accts[i].clone());
+        ensure!(h == want, "C07/holder/mismatch", "after {what}: holder is {:?}, model says account {:?}", h.as_ref().and_then(|a| w.accts.iter().position(|x| x == a)), m.holder);
+        ensure!(cnt == m.counter, "C07/probe/effect-count-mismatch", "after {what}: {cnt} privileged effects observed, model {}", m.counter);
+        Ok(())
+    };
+    check_obs(&m, "construction")?;
+
+    let mut ops: Vec<Op> = vec![];
+    for op in &case.ops {
+        match op {
+            Op::AcceptAt { which, d, by, also, auth } => {
+                ops.push(Op::AdvanceTo { which: which.clone(), d: *d });
+                ops.push(Op::Accept { by: by.clone(), also: also.clone(), auth: auth.clone() });
+            }
+            o => ops.push(o.clone()),
+        }
+    }
+    for (step, op) in ops.iter().enumerate() {
+        let now = envx::seq(e);
+        match op {
+            Op::Advance { k } => {
+                envx::advance(e, *k);
+                check_obs(&m, "advance")?;
+                continue;
+            }
+            Op::AdvanceTo { which, d } => {
+                let base = match which {
+                    Which::Current => m.pending.map(|p| p.until).or(m.offers.last().map(|o| o.1)),
+                    Which::Earlier(wh) => {
+                        if m.offers.is_empty() {
+                            None
+                        } else {
+                            Some(m.offers[pick(*wh, m.offers.len())].1)
+                        }
+                    }
+                };
+                if let Some(b) = base {
+                    let target = b as i64 + *d as i64;
+                    if target > now as i64 && target - (now as i64) < 4_000_000 {
+                        envx::set_seq(e, target as u32);
+                        ctx.class("advance_to_offer_boundary");
+                    }
+                }
+                check_obs(&m, "advance")?;
+                continue;
+            }
+            _ => {}
+        }
+        let max_live = e.ledger().max_live_until_ledger();
+        let live_pending: Option<Pending> = m.pending.filter(|p| p.until >= now);
+        let addr = |i: usize| w.accts[i].clone();
+
+        let (cl, mode, until, to_i): (Call, &AuthMode, u32, usize) = match op {
+            Op::Offer { to, live, by, auth } => {
+                let to_i = resolve(&m, to);
+                let until: u32 = match live {
+                    Live::Rel(d) => (now as i64 + *d as i64).clamp(1, u32::MAX as i64) as u32,
+                    Live::MaxPlus(d) => (max_live as i64 + *d as i64).clamp(1, u32::MAX as i64) as u32,
+                    Live::LikeEarlier(wh, d) => {
+                        if m.offers.is_empty() {
+                            now + 5
+                        } else {
+                            (m.offers[pick(*wh, m.offers.len())].1 as i64 + *d as i64).clamp(1, u32::MAX as i64) as u32
+                        }
+                    }
+                    Live::Cancel => 0,
+                    Live::Abs(x) => *x,
+                };
+                let s = resolve(&m, by);
+                (Call { func: w.f("offer"), args: vec![addr(to_i).into_val(e), until.into_val(e)], signers: vec![addr(s)] }, auth, until, to_i)
+            }
+            Op::Accept { by, also, auth } => {
+                let mut signers = vec![addr(resolve(&m, by))];
+                if let Some(x) = also {
+                    let extra = addr(resolve(&m, x));
+                    if !signers.contains(&extra) {
+                        signers.push(extra);
+                        ctx.class("second_exact_signer");
+                    }
+                }
+                (Call { func: w.f("accept"), args: vec![], signers }, auth, 0, 0)
+            }
+            Op::Renounce { by, auth } => (Call { func: w.f("renounce"), args: vec![], signers: vec![addr(resolve(&m, by))] }, auth, 0, 0),
+            Op::Probe { by, auth } => (Call { func: w.f("probe"), args: vec![], signers: vec![addr(resolve(&m, by))] }, auth, 0, 0),
+            Op::Advance { .. } | Op::AdvanceTo { .. } | Op::AcceptAt { .. } => unreachable!(),
+        };
+        let (res, attached) = exec(e, &w.c, &cl, mode, &w.accts);
+        let ok = res.is_ok();
+        ctx.op(ok);
+        let authd = |i: usize| attached.contains(&w.accts[i]);
+        let h_authd = m.holder.map(|h| authd(h)).unwrap_or(false);
+        let what = format!(
+            "step {step} {}({:?}) at ledger {now} (max_live_until {max_live}), entries attached for accounts {:?}; model: holder {:?}, pending {:?} ({:?})",
+            cl.func,
+            op,
+            attached.iter().map(|a| w.accts.iter().position(|x| x == a)).collect::<Vec<_>>(),
+            m.holder,
+            m.pending,
+            m.gone
+        );
+
+        match op {
+            Op::Offer { .. } if until == 0 => {
+                // cancel
+                if ok {
+                    ensure!(h_authd, "C07/cancel/without-holder-auth", "{what}: cancel succeeded without the holder's authorization");
+                    match m.pending {
+                        None => bail!("C07/cancel/no-offer-cancelled", "{what}: cancel succeeded although no offer exists"),
+                        Some(p) if p.until >= now => {
+                            ensure!(p.addr == to_i, "C07/cancel/wrong-account-cancelled", "{what}: cancel naming account {to_i} removed the offer to account {}", p.addr)
+                        }
+                        Some(_) => ctx.class("cancel_of_expired_offer_accepted"),
+                    }
+                    m.pending = None;
+                    m.gone = Gone::Cancelled;
+                    ctx.class("cancel_ok");
+                } else {
+                    if let (true, Some(p)) = (h_authd, live_pending) {
+                        ensure!(p.addr != to_i, "C07/cancel/live-offer-not-cancelled", "{what}: the holder could not cancel its live offer: {:?}", res);
+                        ctx.class("cancel_wrong_account_refused");
+                    }
+                }
+            }
+            Op::Offer { .. } => {
+                let valid = now <= until && until <= max_live;
+                if until > max_live {
+                    ctx.class("offer_beyond_max_live_until");
+                }
+                if until == max_live {
+                    ctx.class("offer_at_max_live_until");
+                }
+                if until == now {
+                    ctx.class("offer_until_now");
+                }
+                if ok {
+                    ensure!(h_authd, "C07/offer/without-holder-auth", "{what}: offer succeeded without the holder's authorization");
+                    ensure!(valid, "C07/offer/invalid-live-until-accepted", "{what}: live_until {until} is outside [{now}, {max_live}] but the offer was stored");
+                    let mut replaced_diff = false;
+                    if let Some(p) = live_pending {
+                        if until < p.until {
+                            ctx.class("offer_replaces_live_with_shorter");
+                            replaced_diff = true;
+                        } else if until > p.until {
+                            ctx.class("offer_replaces_live_with_longer");
+                            replaced_diff = true;
+                        } else {
+                            ctx.class("offer_replaces_live_same_expiry");
+                        }
+                    } else if m.gone == Gone::Cancelled && m.pending.is_none() {
+                        ctx.class("reoffer_after_cancel");
+                    } else if m.pending.is_some() {
+                        ctx.class("reoffer_after_expiry");
+                    }
+                    m.pending = Some(Pending { addr: to_i, until, replaced_diff });
+                    m.offers.push((to_i, until));
+                    ctx.class("offer_ok");
+                } else {
+                    ensure!(!(h_authd && valid), "C07/offer/valid-offer-refused", "{what}: the holder's offer with live_until {until} in [{now}, {max_live}] was refused: {:?}", res);
+                }
+            }
+            Op::Accept { .. } => {
+                if let Some(p) = m.pending {
+                    if p.replaced_diff && now > p.until {
+                        accept_after_replaced_expiry = true;
+                    }
+                    if now > p.until {
+                        ctx.class("accept_attempt_after_expiry");
+                    } else if now == p.until {
+                        ctx.class("accept_attempt_at_expiry");
+                    } else {
+                        ctx.class("accept_attempt_before_expiry");
+                    }
+                }
+                if ok {
+                    let p = match m.pending {
+                        None => match m.gone {
+                            Gone::Cancelled => bail!("C07/accept/cancelled-offer-accepted", "{what}: accept succeeded after the offer was cancelled"),
+                            Gone::Accepted => bail!("C07/accept/accepted-twice", "{what}: accept succeeded although the offer had already been accepted"),
+                            _ => bail!("C07/accept/no-offer-accepted", "{what}: accept succeeded although no offer exists"),
+                        },
+                        Some(p) => p,
+                    };
+                    ensure!(p.until >= now, "C07/accept/expired-offer-accepted", "{what}: accept succeeded at ledger {now} although the offer's live_until_ledger {} has passed", p.until);
+                    ensure!(authd(p.addr), "C07/accept/without-pending-auth", "{what}: accept succeeded without the authorization of the pending account {}", p.addr);
+                    m.holder = Some(p.addr);
+                    m.last_holder = p.addr;
+                    m.pending = None;
+                    m.gone = Gone::Accepted;
+                    ctx.class("accept_ok");
+                    check_obs(&m, &what)?;
+                    // an accepted offer cannot be accepted again (same authorization, same ledger)
+                    let (r2, _) = exec(e, &w.c, &cl, mode, &w.accts);
+                    ctx.op(r2.is_ok());
+                    ensure!(r2.is_err(), "C07/accept/accepted-twice", "{what}: the same accept succeeded a second time");
+                } else if let Some(p) = live_pending {
+                    ensure!(!(authd(p.addr) && m.holder.is_some()), "C07/accept/live-offer-refused", "{what}: the pending account could not accept its live offer: {:?}", res);
+                }
+            }
+            Op::Renounce { .. } => {
+                if ok {
+                    ensure!(h_authd, "C07/renounce/without-holder-auth", "{what}: renounce succeeded without the holder's authorization");
+                    ensure!(live_pending.is_none(), "C07/renounce/succeeded-while-pending", "{what}: renounce succeeded while an offer is pending");
+                    m.holder = None;
+                    m.pending = None;
+                    m.gone = Gone::Renounced;
+                    ctx.class("renounce_ok");
+                } else if h_authd {
+                    match (m.pending, live_pending) {
+                        (None, _) => bail!("C07/renounce/refused-without-pending", "{what}: the holder's renounce was refused although no offer is pending: {:?}", res),
+                        (Some(_), Some(_)) => ctx.class("renounce_refused_while_pending"),
+                        (Some(_), None) => ctx.class("renounce_refused_expired_pending"),
+                    }
+                }
+            }
+            Op::Probe { .. } => {
+                if ok {
+                    ensure!(h_authd, "C07/probe/non-holder-passed", "{what}: the holder-guarded entry point ran without the holder's authorization");
+                    m.counter += 1;
+                    if live_pending.is_some() {
+                        ctx.class("holder_probe_ok_while_pending");
+                    }
+                } else {
+                    ensure!(!h_authd, "C07/probe/holder-refused", "{what}: the holder was refused on its guarded entry point: {:?}", res);
+                }
+            }
+            Op::Advance { .. } | Op::AdvanceTo { .. } | Op::AcceptAt { .. } => unreachable!(),
+        }
+        check_obs(&m, &what)?;
+        match mode {
+            AuthMode::Exact | AuthMode::Surplus(_) => ctx.class("auth_exact_or_surplus"),
+            _ => ctx.class("auth_defective"),
+        }
+    }
+    if accept_after_replaced_expiry {
+        ctx.nontrivial = true;
+        ctx.class("nontrivial");
+    }
+    Ok(())
+}
+
+fn strat_ownable(tier: Tier) -> BoxedStrategy<Case> {
+    strategy_for(Target::Ownable, tier)
+}
+fn strat_acl(tier: Tier) -> BoxedStrategy<Case> {
+    strategy_for(Target::Acl, tier)
+}
 
 pub fn property() -> Property {
-    Property { id: "C07", rule: "", subs: vec![], floors: vec![], assumptions: vec![] }
+    Property {
+        id: "C07",
+        rule: "case = (target in {example ownable, harness Acl admin}, start ledger, max_entry_ttl in {500, 3.1M}, min_temp_entry_ttl = 1, history of <=25 (thorough 50) ops \
+               offer(new, live_until in {now-1, now, now+1, now+k, like an earlier offer, max_live_until-1/0/+1, 0 = cancel}) / accept / renounce / holder-guarded probe / advance \
+               (by k, or to live_until-1/0/+1 of the current or any earlier offer), signer by model-relative selector, auth mode Exact/Drop/Swap/Tamper/Surplus); \
+               non-trivial = an offer replaced a live offer with a different live_until and a later accept was attempted after the newer offer's live_until; distinct = distinct serialised case",
+        subs: vec![gen_sub::<Case>("ownable", 1800, 30000, strat_ownable, run), gen_sub::<Case>("acl-admin", 1200, 20000, strat_acl, run)],
+        floors: vec![
+            ("nontrivial", 15, 150),
+            ("offer_replaces_live_with_shorter", 45, 450),
+            ("offer_replaces_live_with_longer", 60, 600),
+            ("accept_attempt_after_expiry", 200, 2000),
+            ("accept_attempt_at_expiry", 90, 900),
+            ("accept_ok", 140, 1400),
+            ("cancel_ok", 8, 80),
+            ("reoffer_after_cancel", 4, 40),
+            ("reoffer_after_expiry", 55, 550),
+            ("offer_beyond_max_live_until", 45, 450),
+            ("offer_at_max_live_until", 30, 300),
+            ("renounce_refused_while_pending", 12, 120),
+            ("auth_defective", 750, 7500),
+        ],
+        assumptions: vec![
+            "Soroban native test host (temporary-entry TTL rules, rollback, authorization matching) is trusted",
+            "min_temp_entry_ttl = 1 so that the storage lifetime of the pending entry equals the requested lifetime (as the property prescribes)",
+            "an address authorizes a call iff an authorization entry of that address for exactly this invocation is attached",
+        ],
+    }
 }
